@@ -1,6 +1,8 @@
 use crate::engine::{ReplayEntry, Run};
 
 pub mod c01;
+pub mod c11;
+pub mod c12;
 
 pub struct Property {
     pub id: &'static str,
@@ -9,7 +11,11 @@ pub struct Property {
 }
 
 pub fn all() -> Vec<Property> {
-    vec![Property { id: "C01", run: c01::run, replays: c01::replays }]
+    vec![
+        Property { id: "C01", run: c01::run, replays: c01::replays },
+        Property { id: "C11", run: c11::run, replays: c11::replays },
+        Property { id: "C12", run: c12::run, replays: c12::replays },
+    ]
 }
 
 pub fn find(id: &str) -> Option<Property> {
